@@ -9,10 +9,10 @@ import vlib, bslib, bsgen
 from vlib import log
 
 MC = {   # property -> [(module, cfg)] per tier
-    "C08": dict(quick=[("MC_BS1.tla", "MC_BS1_quick.cfg")], thorough=[("MC_BS1.tla", "MC_BS1_thorough.cfg")]),
-    "C09": dict(quick=[("MC_BS1.tla", "MC_BS1_c09.cfg")], thorough=[("MC_BS1.tla", "MC_BS1_thorough.cfg")]),
-    "C10": dict(quick=[("MC_BS1.tla", "MC_BS1_c10.cfg")], thorough=[("MC_BS1.tla", "MC_BS1_thorough.cfg")]),
-    "C11": dict(quick=[("MC_BS1.tla", "MC_BS1_c11.cfg")], thorough=[("MC_BS1.tla", "MC_BS1_thorough.cfg")]),
+    "C08": dict(quick=[("MC_BS1.tla", "MC_BS1_quick.cfg"), ("MC_BS4.tla", "MC_BS4_quick.cfg")], thorough=[("MC_BS1.tla", "MC_BS1_thorough.cfg"), ("MC_BS4.tla", "MC_BS4_thorough.cfg")]),
+    "C09": dict(quick=[("MC_BS1.tla", "MC_BS1_c09.cfg")], thorough=[("MC_BS1.tla", "MC_BS1_c09_thorough.cfg")]),
+    "C10": dict(quick=[("MC_BS1.tla", "MC_BS1_c10.cfg")], thorough=[("MC_BS1.tla", "MC_BS1_c10_thorough.cfg")]),
+    "C11": dict(quick=[("MC_BS1.tla", "MC_BS1_c11.cfg")], thorough=[("MC_BS1.tla", "MC_BS1_c11_thorough.cfg")]),
     "C12": dict(quick=[("MC_BS2.tla", "MC_BS2_quick.cfg")], thorough=[("MC_BS2.tla", "MC_BS2_thorough.cfg")]),
     "C14": dict(quick=[("MC_BS3.tla", "MC_BS3_quick.cfg")], thorough=[("MC_BS3.tla", "MC_BS3_thorough.cfg")]),
 }
@@ -61,17 +61,29 @@ def scenario_structfile():
     return finish_case(dict(nodes=nodes, fs0=fs0, steps=[("frontend", d0, True, True), ("build", "t"), ("write", "d", "1"), ("build", "t"),
                                                          ("frontend", d0, True, True), ("touch", "d"), ("build", "t")]))
 
-SCENARIOS = {"C12": [("structure-of-a-file", scenario_structfile, "C12 filtered structure signature of a non-directory")], "C08": [("amo-input-change", scenario_amo, "C08 allow-modified-outputs: input change not rebuilt")]}
+def scenario_refusal():
+    """S33: the delegate refuses the command between a failing command and a consumer; the consumer runs (a listed finding)"""
+    from bslib import node, cmd, make_desc, finish_case
+    nodes = {n: node("file", n) for n in ["a", "m", "o1", "o2", "o3"]}
+    d0 = make_desc(dict(c1=cmd(ins=["a"], outs=["o1"], tag="c1", failif="m"), c2=cmd(ins=["o1"], outs=["o2"], tag="c2"),
+                        c3=cmd(ins=["o2"], outs=["o3"], tag="c3")), dict(t=["o3"]))
+    fs0 = {"a": dict(t="file", c="0"), "m": dict(t="none", c=""), "o1": dict(t="none", c=""), "o2": dict(t="none", c=""), "o3": dict(t="none", c="")}
+    return finish_case(dict(nodes=nodes, fs0=fs0, steps=[("frontend", d0, True, True), ("build", "t"), ("write", "a", "1"), ("write", "m", "x"),
+                                                         ("skip", ["c2"]), ("build", "t"), ("rm", "m"), ("build", "t")]))
+
+SCENARIOS = {"C10": [("refused-command-hides-failure", scenario_refusal, "C10 delegate-refused command between a failed command and its consumer", "BuildSystemTraceStrict.cfg", "TRefusalHidesNoFailure")],
+             "C12": [("structure-of-a-file", scenario_structfile, "C12 filtered structure signature of a non-directory")], "C08": [("amo-input-change", scenario_amo, "C08 allow-modified-outputs: input change not rebuilt")]}
 
 def run_scenarios(pid, binary, wd):
     out = []
-    for name, mk, fp in SCENARIOS.get(pid, []):
+    for sc in SCENARIOS.get(pid, []):
+        name, mk, fp = sc[:3]; cfg = sc[3] if len(sc) > 3 else "BuildSystemTrace.cfg"; inv = sc[4] if len(sc) > 4 else "TOutputsClean"
         case = mk()
         lines, evs, err = bslib.run_case(binary, case, wd, "scn_" + name)
         if err: out.append(dict(replay=vlib.save_replay(pid, "scenario-" + name, dict(property=pid, kind="scenario", name=name, error=err)), what="scenario %s: %s" % (name, err), fingerprint="driver:" + name)); continue
-        acc, rej, st, evn = vlib.validate_executions([lines], wd, "scn_" + name, module="BuildSystemTrace.tla", cfg="BuildSystemTrace.cfg")
+        acc, rej, st, evn = vlib.validate_executions([lines], wd, "scn_" + name, module="BuildSystemTrace.tla", cfg=cfg)
         for rj in rej:
-            this = fp if rj.get("violated") == "TOutputsClean" else "%s:%s" % (name, rj["reason"])
+            this = fp if rj.get("violated") == inv else "%s:%s" % (name, rj["reason"])
             path = vlib.save_replay(pid, "scenario-" + name, dict(property=pid, kind="scenario", name=name, rejected_at=rj["at"], reason=rj["reason"], event=json.loads(rj["event"]), trace=rj["lines"]))
             out.append(dict(replay=path, what="scenario %s: %s at line %d" % (name, rj["reason"], rj["at"]), fingerprint=this))
         log("[%s] scenario %s: %s" % (pid, name, "accepted" if not rej else "rejected (%s)" % rej[0]["reason"]))
